@@ -1,9 +1,13 @@
 package props
 
 import (
+	"bytes"
 	"encoding/hex"
+	"github.com/vektah/gqlparser/v2/formatter"
+	"github.com/vektah/gqlparser/v2/parser"
 	"strings"
 	"sync"
+	"sync/atomic"
 
 	"github.com/vektah/gqlparser/v2/ast"
 
@@ -66,7 +70,72 @@ func runC13(c *core.Ctx) {
 		}
 		c.Seen(true, []byte(k.text))
 	})
-	c.Evals += int64(nDocs)
+	// the scale family: wide definitions and pieces of text around 4 KiB and 64 KiB; the re-parsed
+	// document is the document of the input, the text is a fixpoint, the loaded schema survives
+	// FormatSchema and reloading (implementation-side oracles), under every option set; the formatter's
+	// bytes are the model's up to a hundred elements and 256-byte pieces
+	scale := ScaleSchemas()
+	tied := map[string]bool{}
+	for _, t := range ScaleSchemasUpTo(101, 256) {
+		tied[t] = true
+	}
+	var nScale int64
+	c.Pool.ParFor(len(scale), func(w, i int) {
+		text := scale[i]
+		orig, err := parser.ParseSchema(&ast.Source{Input: text, Name: "s"})
+		if err != nil {
+			c.ReportOracle("scale-schema-does-not-parse", map[string]interface{}{"input": text[:min(300, len(text))], "error": err.Error()})
+			return
+		}
+		orig.Schema = mergeSchemaDefs(orig.Schema)
+		orig.SchemaExtension = mergeSchemaDefs(orig.SchemaExtension)
+		expect := eraseKinds("ok " + DumpSchemaDoc(orig, false, nil))
+		atomic.AddInt64(&nScale, 1)
+		for fi, fl := range []string{"", "c", "m", "cm"} {
+			for _, indent := range []string{"", "  ", "\t"} {
+				args := [][]byte{[]byte(fl), []byte(indent), []byte("0"), []byte(text)}
+				out := c.Impl(w, "fs", args...)
+				parts := strings.Split(out, "|")
+				if !(len(parts) == 3 && parts[2] == "1" && eraseKinds(parts[1]) == expect) {
+					c.ReportOracle("format-parse-roundtrip-schema", map[string]interface{}{"op": "fs", "args": []string{hexs(fl), hexs(indent), hexs("0"), hexs(text)},
+						"input": text[:min(300, len(text))], "bytes": len(text), "flags": fl, "indent": indent, "implementation": out[:min(600, len(out))]})
+					return
+				}
+				if tied[text] && fi == i%2 && indent == "  " {
+					if v, cur, none := c.Tie(w, "fs", out, args...); v == core.Violation {
+						c.Report(w, "fs", thm, args, out, cur, none)
+					}
+				}
+			}
+		}
+		s, err2 := loadImpl(text)
+		if err2 != nil || s == nil {
+			return
+		}
+		for _, fl := range []string{"", "b", "c", "bc"} {
+			var buf bytes.Buffer
+			formatter.NewFormatter(&buf, fmtOptions(fl, "  ")...).FormatSchema(s)
+			s2, err := reloadFormatted(fl, buf.String())
+			problem := ""
+			if err != nil || s2 == nil {
+				problem = "formatted schema does not load"
+			} else if bi := strings.Contains(fl, "b"); eraseKinds(NormDumpSchema(s, false, bi)) != eraseKinds(NormDumpSchema(s2, false, bi)) {
+				problem = "the reloaded schema differs: " + diffAt(eraseKinds(NormDumpSchema(s, false, bi)), eraseKinds(NormDumpSchema(s2, false, bi)))
+			} else {
+				var buf2 bytes.Buffer
+				formatter.NewFormatter(&buf2, fmtOptions(fl, "  ")...).FormatSchema(s2)
+				if buf2.String() != buf.String() {
+					problem = "formatting the reloaded schema gives a different text"
+				}
+			}
+			if problem != "" {
+				c.ReportOracle("format-load-roundtrip-schema", map[string]interface{}{"sources": []string{text[:min(300, len(text))]}, "bytes": len(text), "flags": fl, "problem": problem})
+				return
+			}
+		}
+	})
+	c.Count("scale_schemas", nScale)
+	c.Evals += int64(nDocs) + nScale*16
 	c.Programs = int64(nDocs)
 	c.Sample(map[string]string{"document": cases[0].text, "flags": cases[0].flags, "indent": cases[0].indent})
 	runC13Loaded(c)
